@@ -29,7 +29,9 @@ func newLayout(table tables.Layout) Layout {
 			Tag:    table.ScriptList.Records[i].Tag,
 		}
 	}
+	lCount := len(table.LookupList.Lookups)
 	for i, f := range table.FeatureList.Features {
+		f.LookupListIndices = sanitizeIndices(f.LookupListIndices, lCount)
 		out.Features[i] = Feature{
 			Feature: f,
 			Tag:     table.FeatureList.Records[i].Tag,
@@ -37,6 +39,23 @@ func newLayout(table tables.Layout) Layout {
 	}
 	if table.FeatureVariations != nil {
 		out.FeatureVariations = table.FeatureVariations.FeatureVariationRecords
+		for _, rec := range out.FeatureVariations {
+			subs := rec.Substitutions.Substitutions
+			for i := range subs {
+				subs[i].AlternateFeature.LookupListIndices = sanitizeIndices(subs[i].AlternateFeature.LookupListIndices, lCount)
+			}
+		}
+	}
+	return out
+}
+
+// sanitizeIndices removes, in place, the indices which are not smaller than [count]
+func sanitizeIndices(indices []uint16, count int) []uint16 {
+	out := indices[:0]
+	for _, index := range indices {
+		if int(index) < count {
+			out = append(out, index)
+		}
 	}
 	return out
 }
